@@ -409,7 +409,7 @@ func (p *parser) mul() Expr {
 }
 
 func (p *parser) unary() Expr {
-	for _, op := range []string{"!", "-", "^"} {
+	for _, op := range []string{"!", "-", "^", "*"} {
 		if p.accept(op) {
 			return EUnary{op, p.unary()}
 		}
